@@ -219,7 +219,7 @@ type c08TypedCase struct {
 	Kind    string `json:"kind"`          // bool | int | float | string
 	Variant string `json:"variant"`       // var | default | split | yaml11-true | yaml11-false | invalid
 	Text    string `json:"text"`          // what the variable holds
-	Dotted  bool   `json:"dotted"`        // the service and the resources carry names with a dot (`svc.v1`)
+	Dotted  bool   `json:"dotted"`        // the service and the resources carry names with a dot (`svc.ulimits`)
 	Via     string `json:"via,omitempty"` // "" main file | include (the document is an included file) | second-document | after-include
 }
 
@@ -234,13 +234,13 @@ func dotNames(doc map[string]any) {
 			}
 		}
 	}
-	ren("services", "svc", "svc.v1")
+	ren("services", "svc", "svc.ulimits")
 	ren("networks", "net", "net.v1")
 	ren("volumes", "vol", "vol.v1")
 	ren("volumes", "extvol", "extvol.v1")
 	ren("secrets", "sec", "sec.v1")
 	ren("configs", "cfg", "cfg.v1")
-	svc, _ := doc["services"].(map[string]any)["svc.v1"].(map[string]any)
+	svc, _ := doc["services"].(map[string]any)["svc.ulimits"].(map[string]any)
 	if svc == nil {
 		return
 	}
@@ -384,6 +384,8 @@ func c08TypedCheck(c *Ctx, cs c08TypedCase) *Failure {
 	case "yaml-notation":
 		setLeaf(litDoc, leaf.segs, rawScalar(cs.Text))
 		setLeaf(varDoc, leaf.segs, "${V}")
+	case "yaml11-true-quoted", "yaml11-false-quoted":
+		setLeaf(varDoc, leaf.segs, cs.Text)
 	case "string-literal":
 		// the text as a quoted scalar in a document without any `$`: the same string the substitution would leave
 		setLeaf(varDoc, leaf.segs, cs.Text)
@@ -398,9 +400,9 @@ func c08TypedCheck(c *Ctx, cs c08TypedCase) *Failure {
 		}
 	}
 	switch cs.Variant {
-	case "yaml11-true":
+	case "yaml11-true", "yaml11-true-quoted":
 		setLeaf(litDoc, leaf.segs, true)
-	case "yaml11-false":
+	case "yaml11-false", "yaml11-false-quoted":
 		setLeaf(litDoc, leaf.segs, false)
 	}
 	if cs.Dotted {
@@ -478,6 +480,11 @@ func c08TypedCheck(c *Ctx, cs c08TypedCase) *Failure {
 		return rl.Panic
 	}
 	if rl.Err != nil {
+		if cs.Dotted && cs.Variant == "var" {
+			// the literal document is the fat document itself, which loads under its plain names: names are
+			// user chosen, a dot in them (even one that makes the name end like an attribute) changes nothing
+			return failf("c08:dotted-names-change-the-outcome", "%s: the fat document loads, the same document with the service named `svc.ulimits` and resources named `*.v1` fails: %v", cs.Path, rl.Err)
+		}
 		// flipping a boolean can make the fat document inconsistent for other reasons: nothing to compare
 		c.Label("typed:literal-document-rejected")
 		return nil
@@ -568,6 +575,14 @@ func c08TypedCases() ([]c08TypedCase, map[string]int) {
 			}
 			for _, t := range []string{"no", "off", "n", "No", "OFF", "FALSE", "False"} {
 				out = append(out, c08TypedCase{Path: p, Literal: "false", Kind: kind, Variant: "yaml11-false", Text: t})
+			}
+			// the same spellings written as quoted strings in a file without any `$`: the conversion the loader
+			// does beforehand is not tied to a substitution having taken place
+			for _, t := range []string{"yes", "on", "Y", "ON"} {
+				out = append(out, c08TypedCase{Path: p, Literal: "true", Kind: kind, Variant: "yaml11-true-quoted", Text: t})
+			}
+			for _, t := range []string{"no", "off", "N", "OFF"} {
+				out = append(out, c08TypedCase{Path: p, Literal: "false", Kind: kind, Variant: "yaml11-false-quoted", Text: t})
 			}
 			for _, t := range []string{"maybe", "1", "0", "t", "f", "T", "F", "2", "tru", "yess", ""} {
 				out = append(out, c08TypedCase{Path: p, Literal: lit, Kind: kind, Variant: "invalid", Text: t})
